@@ -6,10 +6,10 @@ from vlib.core import natlist
 OBLIGATIONS = dict(
     prop_file='Properties/C10.v',
     glue=[f'Glue/Pin_{n}.v' for n in ('pat_vq_forward', 'pat_vq_split', 'pat_vq_decode', 'pat_euclid_forward', 'pat_cosine_forward', 'pat_fsq_forward', 'pat_fsq_decode',
-                                      'pat_lfq_forward', 'pat_lfq_decode', 'pat_rvq_decode', 'pat_simvq_forward')],
-    extra=['Model/Layout.vo', 'Model/Forward.vo'],
+                                      'pat_lfq_forward', 'pat_lfq_decode', 'pat_rvq_decode', 'pat_simvq_forward')] + ['Glue/EinopsGlue.v'],
+    extra=['Model/Layout.vo', 'Model/Forward.vo', 'Model/EinopsCheck.vo'],
     gen_items=['pat_vq_forward', 'pat_vq_split', 'pat_vq_decode', 'pat_euclid_forward', 'pat_cosine_forward', 'pat_fsq_forward', 'pat_fsq_decode', 'pat_lfq_forward',
-               'pat_lfq_decode', 'pat_rvq_decode', 'pat_simvq_forward'],
+               'pat_lfq_decode', 'pat_rvq_decode', 'pat_simvq_forward', 'pr_vq', 'pr_scalar'],
 )
 ASSUMPTIONS = [
     'einops / einx rearrange semantics = row-major grouped axes (the index maps of Model/Layout.v); compared with einops itself on index-labelled tensors for the patterns found at the anchored sites, on several extents per pattern',
@@ -19,6 +19,71 @@ HEADER = '''From Coq Require Import ZArith QArith Arith List Bool.
 From VQ Require Import Num Model.Vec Model.Core Model.CoreCheck Model.Layout Model.Forward.
 Import ListNotations.
 '''
+
+
+EINOPS_HEADER = '''From Coq Require Import ZArith String List Arith Bool.
+From VQ Require Import Model.Einops Model.EinopsCheck.
+Import ListNotations.
+Open Scope string_scope.
+'''
+
+
+def einops_cases(ctx, rng, failures):
+    """the Coq einops interpreter (Model/Einops.v) against einops itself, on index-labelled tensors, for EVERY rearrange / repeat pattern
+    the translator finds at the anchored sites (the same role tables Gen/pr_*.v that the glue lemmas consume)"""
+    import torch, einops
+    from vlib.gen_items import VQ, FSQF, LFQF
+    specs = [(VQ, 'VectorQuantize.forward'), (VQ, 'VectorQuantize.maybe_split_heads_from_input'), (VQ, 'VectorQuantize.get_codes_from_indices'),
+             (FSQF, 'FSQ.forward'), (FSQF, 'FSQ.indices_to_codes'), (LFQF, 'LFQ.forward'), (LFQF, 'LFQ.indices_to_codes')]
+    pats = []
+    for fname, qual in specs:
+        try:
+            for t, call, pat in srcgen.collect_pattern_roles(fname, qual):
+                if (call, pat) not in pats:
+                    pats.append((call, pat))
+        except Exception as ex:
+            failures.append({'key': f'einops:roles:{qual}', 'what': f'pattern roles of {qual} could not be collected: {ex!r}', 'case': dict(qual=qual)})
+
+    def groups(side):
+        out, cur = [], None
+        for tok in side.replace('(', ' ( ').replace(')', ' ) ').split():
+            if tok == '(':
+                cur = []
+            elif tok == ')':
+                out.append(cur)
+                cur = None
+            elif cur is not None:
+                cur.append(tok)
+            else:
+                out.append([tok])
+        return out
+    cases, meta = [], []
+    for call, pat in pats:
+        lhs, rhs = [groups(x) for x in pat.split('->')]
+        names_l = [a for g in lhs for a in g if a != '1']
+        names = list(dict.fromkeys(names_l + [a for g in rhs for a in g if a != '1']))
+        for rep in range(3 if not ctx.thorough else 8):
+            sizes = {n: rng.choice([1, 2, 3]) for n in names}
+            shape_l = []
+            for g in lhs:
+                k = 1
+                for a in g:
+                    k *= sizes.get(a, 1)
+                shape_l.append(k)
+            tot = 1
+            for k in shape_l:
+                tot *= k
+            x = torch.arange(tot).reshape(shape_l)
+            kwargs = {n: sizes[n] for n in names if n != '...' and (n not in names_l or any(n in g and len(g) > 1 for g in lhs))}
+            try:
+                y = (einops.repeat if call == 'repeat' else einops.rearrange)(x, pat, **kwargs)
+            except Exception as ex:
+                failures.append({'key': f'einops:{pat}:einops-raises', 'what': f'einops.{call}({pat!r}, {kwargs}) on shape {shape_l}: {ex!r}', 'case': dict(pattern=pat)})
+                break
+            env = '[' + '; '.join(f'("{n}", {sizes[n]}%nat)' for n in names) + ']'
+            cases.append(f'einops_check {"true" if call == "repeat" else "false"} "{pat}" {env} {natlist(y.reshape(-1).tolist())}')
+            meta.append(dict(pat=pat, call=call, sizes=sizes))
+    return cases, meta
 
 
 def pattern_cases(ctx, failures):
@@ -232,8 +297,15 @@ def correspond(ctx, scale):
     fc, fm = forward_model_cases(ctx, rng, failures)
     n_pattern = len(cases)
     cases, meta = cases + fc, meta + fm
+    ec, em = einops_cases(ctx, rng, failures)
+    ebad, ebroken = core.run_cases(ctx, 'c10_einops', EINOPS_HEADER, ec, per_file=60)
+    for name, out in ebroken:
+        failures.append({'key': f'coq-eval:{name}', 'what': 'case file did not evaluate: ' + out, 'case': {'file': name}})
+    for i, code in sorted(ebad.items()):
+        why = {1: 'differs from einops', 2: 'does not parse', 3: 'is not a well-formed rearrange / repeat (axis sets differ or an axis is repeated)'}.get(code, str(code))
+        failures.append({'key': f'einops-model:{em[i]["pat"]}', 'what': f'the Coq einops interpreter on pattern {em[i]["pat"]!r} with sizes {em[i]["sizes"]} {why}', 'case': dict(em[i], term=ec[i][:5000])})
     ev = nt = 0
-    dist = {'pattern_cases': n_pattern, 'forward_model_cases': len(fc), 'permute': 0, 'split_concat': 0, 'single_vs_batch': 0, 'layout_equiv': 0}
+    dist = {'einops_interpreter_cases': len(ec), 'pattern_cases': n_pattern, 'forward_model_cases': len(fc), 'permute': 0, 'split_concat': 0, 'single_vs_batch': 0, 'layout_equiv': 0}
     reps = (2 if not ctx.thorough else 10) * scale
 
     def same(a, b, what, key, info, exact_idx=True):
@@ -268,6 +340,14 @@ def correspond(ctx, scale):
                 if lay == 'cfirst' and rep % 2 == 0:
                     n = m['dim']          # square case: sequence length = feature dimension (a transposition slip is invisible in the shapes)
                 xs = torch.randn(b, n, m['dim'])
+                mixed = rep % 2 == 0
+                if mixed:
+                    # tokens of very different magnitude side by side: a per-call statistic (max / mean over the batch) leaking into a token's
+                    # result shows up as a dependence on which other tokens share the call
+                    sc = torch.tensor([[rng.choice([1e-8, 1e-4, 1.0, 1.0, 30.0]) for _ in range(n)] for _ in range(b)])
+                    sc[0, 0], sc[-1, -1] = 1e-8, 30.0
+                    xs = xs * sc[..., None]
+                    dist['mixed_magnitude_batches'] = dist.get('mixed_magnitude_batches', 0) + 1
                 key = f'{m["name"]}:{lay}'
                 grouped = m['name'] == 'grvq'
                 try:
@@ -303,7 +383,7 @@ def correspond(ctx, scale):
                         same(i0, ic, 'indices', key + ':split', f'{m["name"]} ({lay}) batch split/concat')
                     # (3) a single vector alone vs inside the batch (sequence layout)
                     if lay == 'seq':
-                        bi, ti = rng.randrange(b), rng.randrange(n)
+                        bi, ti = (0, 0) if mixed else (rng.randrange(b), rng.randrange(n))
                         os_, is_ = run(mod, m, xs[bi:bi + 1, ti:ti + 1], frozen)
                         dist['single_vs_batch'] += 1
                         if os_ is not None:
